@@ -35,7 +35,7 @@ SEMANTIC = (
 def run(path, rlimit=30, threads=None, extra=None, timeout=900):
     """Returns dict(cmd, exit, wall_s, json (verus summary or None), diags [list of rustc diagnostics])."""
     cmd = [VERUS, path, '--output-json', '--time', '--multiple-errors', '20', '--triggers-mode', 'silent',
-           '--rlimit', str(rlimit), '--error-format=json']
+           '--rlimit', str(rlimit), '--no-erasure-check', '--error-format=json']
     if threads:
         cmd += ['--num-threads', str(threads)]
     if extra:
